@@ -7,13 +7,34 @@ Local Open Scope N_scope.
    Model: OpenStage.open2 pf max_off zd file = Decompressor::open (verbosity 0) on an ARBITRARY byte string:
    Container.deserialize (Archive::open, props/C14.v), load_params, prepare_for_decompression,
    load_batch_sample_names (get_part, zstd, size test, CollectionVarInt count, NUL-terminated UTF-8 strings).
-   pf = build profile (Dev traps on integer overflow, Release wraps), zd = zstd::decode_all as a total function
+   pf = build profile (Dev traps on integer overflow, Release wraps - proved irrelevant below), zd = zstd::decode_all as a total function
    (None = error), max_off = the file system's largest offset.  Result: (allocation log, O2ok handle | O2err code |
    O2panic); decompressor_open pf zd file = the Ok/Err/Panic view at max_off = 2^64-1.  No fuel anywhere in stage two:
    every loop is structural on the decoded stream (the count is clamped to the bytes left, Names.clamp), so "never
    a hang" is by construction. *)
 
-(* ---------------------------------------------------------------- "never a panic" is FALSE of the dev profile *)
+(* ---------------------------------------------------------------- never a panic *)
+(* for ALL byte strings, all zstd behaviours, every file system, BOTH profiles.  (The code today: CollectionVarInt's
+   5-byte form adds THR_4 with checked_add and returns an error, /repo 4d083e0; translator item CV5_ADD_FORM = 2,
+   pinned below.)  Nothing in stage two can panic: not the params indexing, not the string slicing, not
+   get_part_by_id's expect, not the varint arithmetic. *)
+Theorem open2_total_safe : forall pf max_off zd file, snd (open2 pf max_off zd file) <> O2panic.
+Proof. exact OpenStage_proofs.open2_total_safe_proof. Qed.
+Print Assumptions open2_total_safe.
+
+(* ... and the build profile is irrelevant: same result, same allocation log *)
+Theorem open2_profile_independent : forall max_off zd file, open2 Dev max_off zd file = open2 Release max_off zd file.
+Proof. exact OpenStage_proofs.open2_profile_independent_proof. Qed.
+Print Assumptions open2_profile_independent.
+
+(* both hold for ANY repaired form of the addition (1 = wrapping_add, anything else = checked_add + error);
+   open2 pf = open2_f CV5_ADD_FORM pf *)
+Theorem open2_total_safe_if_repaired : forall form, form <> 0 ->
+  forall pf max_off zd file, snd (open2_f form pf max_off zd file) <> O2panic.
+Proof. exact OpenStage_proofs.open2_total_safe_if_repaired_proof. Qed.
+Print Assumptions open2_total_safe_if_repaired.
+
+(* ---------------------------------------------------------------- the defect that was there (fixed in /repo 4d083e0) *)
 Definition wit_params : list N := [21; 0; 0; 0; 20; 0; 0; 0; 50; 0; 0; 0; 232; 3; 0; 0].
 (* a complete archive written by the model of ragc_common::Archive: four streams, a 16-byte params part, one
    collection-samples part [frame] with metadata [raw] *)
@@ -24,77 +45,55 @@ Definition wit_file (frame : list N) (raw : N) : list N :=
 Definition wit_zd (frame v : list N) (f : list N) : option (list N) :=
   if list_eqb N.eqb f frame then Some v else None.
 
-(* open2_total_safe (forall pf zd file, decompressor_open pf zd file <> Panic) does NOT hold: a complete archive
-   whose sample-name stream starts with the 5-byte count f0 ff ff ff ff makes CollectionVarInt::decode add THR_4
-   to 0xFFFFFFFF: "attempt to add with overflow" in the dev profile; release wraps and reports "Null terminator
-   not found".  Reproduced on the real code (harness c14o: craft shm 15.1.0.0.0 <params> f0ffffffff 0). *)
-Theorem open2_total_safe_refuted : exists zd file,
-  (exists rd, snd (deserialize max_u64 file) = Ok rd) /\
-  decompressor_open Dev zd file = Panic /\
-  snd (open2 Release max_u64 zd file) = O2err e_no_nul.
+(* with the OLD form of the addition (form 0: `num += Self::THR_4`) "never a panic" was false: a complete 113-byte
+   archive whose sample-name stream starts with the 5-byte count f0 ff ff ff ff made the dev profile trap
+   ("attempt to add with overflow") while release wrapped and reported "Null terminator not found".  Was reproduced
+   on the real code (harness c14o: craft shm 15.1.0.0.0 <params> f0ffffffff 0 -> P in dev).  The same file now gets
+   the error value "Invalid 5-byte varint: value exceeds u32" in both profiles (regression cases in
+   corpus/c14o.cases). *)
+Theorem open2_old_form_refuted : exists zd file,
+  lenN file = 113 /\ (exists rd, snd (deserialize max_u64 file) = Ok rd) /\
+  snd (open2_f 0 Dev max_u64 zd file) = O2panic /\
+  snd (open2_f 0 Release max_u64 zd file) = O2err e_no_nul /\
+  snd (open2 Dev max_u64 zd file) = O2err e_varint_range /\ snd (open2 Release max_u64 zd file) = O2err e_varint_range.
 Proof.
   exists (wit_zd [1; 2; 3] [240; 255; 255; 255; 255]), (wit_file [1; 2; 3] 5).
-  split; [eexists; vm_compute; reflexivity|]. split; vm_compute; reflexivity.
+  split; [vm_compute; reflexivity|]. split; [eexists; vm_compute; reflexivity|]. repeat split; vm_compute; reflexivity.
 Qed.
-Print Assumptions open2_total_safe_refuted.
-(* the smallest overflowing count, 0xEFDFBF80: dev panics, release wraps the count to 0 and returns a handle with
-   an empty sample list (real code: craft .. f0efdfbf80 0 -> `O:21:20:` in release, P in dev) *)
-Example release_wraps_count_to_zero :
+Print Assumptions open2_old_form_refuted.
+(* the smallest overflowing count, 0xEFDFBF80: the old dev build panicked, the old release build wrapped the count to
+   0 and returned a handle with an empty sample list (was: craft .. f0efdfbf80 0 -> `O:21:20:` in release, P in dev) *)
+Example old_release_wrapped_count_to_zero :
   let zd := wit_zd [1; 2; 3] [240; 239; 223; 191; 128] in
   let file := wit_file [1; 2; 3] 5 in
-  decompressor_open Dev zd file = Panic /\
-  exists h, snd (open2 Release max_u64 zd file) = O2ok h /\ h_samples h = [].
-Proof. cbv zeta. split; [vm_compute; reflexivity|]. eexists. split; vm_compute; reflexivity. Qed.
+  snd (open2_f 0 Dev max_u64 zd file) = O2panic /\
+  (exists h, snd (open2_f 0 Release max_u64 zd file) = O2ok h /\ h_samples h = []) /\
+  decompressor_open Dev zd file = Err /\ decompressor_open Release zd file = Err.
+Proof.
+  cbv zeta. split; [vm_compute; reflexivity|]. split; [eexists; split; vm_compute; reflexivity|].
+  split; vm_compute; reflexivity.
+Qed.
 
-(* ---------------------------------------------------------------- the strongest true statements *)
-(* release profile: never a panic, for ALL byte strings, all zstd behaviours, every file system *)
-Theorem open2_release_total_safe : forall max_off zd file, snd (open2 Release max_off zd file) <> O2panic.
-Proof. exact OpenStage_proofs.open2_release_total_safe_proof. Qed.
-Print Assumptions open2_release_total_safe.
-
-(* dev profile: open panics EXACTLY when everything before the sample table succeeds (open_pre returns the
-   decompressed sample-name stream) and that stream starts with a 5-byte count whose value + 270549120 leaves u32:
-   first byte 0xF0..0xFF, next four bytes big-endian >= 0xEFDFBF80 (cv5_overflows).  Nothing else in stage two
-   can panic: not the params indexing, not the string slicing, not get_part_by_id's expect. *)
-Theorem open2_dev_panic_iff : forall max_off zd file,
-  snd (open2 Dev max_off zd file) = O2panic <->
-  exists st, snd (open_pre max_off zd file) = O2ok st /\ cv5_overflows (ps_stream st) = true.
-Proof. exact OpenStage_proofs.open2_dev_panic_iff_proof. Qed.
-Print Assumptions open2_dev_panic_iff.
+(* exactly when ANY form panics: only form 0, only the dev profile, only when everything before the sample table
+   succeeds and the decompressed stream starts with a 5-byte count whose value + 270549120 leaves u32: first byte
+   0xF0..0xFF, next four bytes big-endian >= 0xEFDFBF80 (cv5_overflows) *)
+Theorem open2_old_form_panic_iff : forall form pf max_off zd file,
+  snd (open2_f form pf max_off zd file) = O2panic <->
+  form = 0 /\ pf = Dev /\ exists st, snd (open_pre max_off zd file) = O2ok st /\ cv5_overflows (ps_stream st) = true.
+Proof. exact OpenStage_proofs.open2_old_form_panic_iff_proof. Qed.
+Print Assumptions open2_old_form_panic_iff.
 Example cv5_overflows_is : cv5_overflows [240; 239; 223; 191; 128] = true /\ cv5_overflows [240; 239; 223; 191; 127] = false /\
   cv5_overflows [255; 255; 255; 255; 255; 0] = true /\ cv5_overflows [239; 255; 255; 255; 255] = false.
 Proof. vm_compute. repeat split; reflexivity. Qed.
 
-(* what a repair buys.  open2 pf = open2_f CV5_ADD_FORM pf, where the form of the addition is read from the source
-   (0 = `num += THR_4`).  With the addition written as wrapping_add (form 1) or checked_add + error (any other form)
-   open cannot panic in EITHER profile, for all inputs - the statement the property wants.  After such a repair the
-   translator gives CV5_ADD_FORM <> 0, open2_total_safe_refuted / open2_dev_panic_iff / open2_code_shape stop
-   compiling (intended) and `open2_total_safe` is this theorem at form := CV5_ADD_FORM. *)
-Theorem open2_total_safe_if_repaired : forall form, form <> 0 ->
-  forall pf max_off zd file, snd (open2_f form pf max_off zd file) <> O2panic.
-Proof. exact OpenStage_proofs.open2_total_safe_if_repaired_proof. Qed.
-Print Assumptions open2_total_safe_if_repaired.
-Example repaired_nonvacuous :
-  let zd := wit_zd [1; 2; 3] [240; 255; 255; 255; 255] in
-  let file := wit_file [1; 2; 3] 5 in
-  (forall pf, open2 pf max_u64 zd file = open2_f 0 pf max_u64 zd file) /\
-  snd (open2_f 1 Dev max_u64 zd file) = O2err e_no_nul /\ snd (open2_f 2 Dev max_u64 zd file) = O2err e_varint.
-Proof. cbv zeta. split; [intro pf; reflexivity|]. split; vm_compute; reflexivity. Qed.
-
-(* hence: safe in both profiles whenever the decoded sample-name stream is in the codec's domain *)
-Theorem open2_total_safe_partial : forall max_off zd file,
+(* the repair is conservative: on every file whose sample-name count is in range, all forms and both profiles
+   return the same thing, allocation log included - the fix changed the answer only where the old code misbehaved *)
+Theorem open2_repair_conservative : forall max_off zd file,
   (forall st, snd (open_pre max_off zd file) = O2ok st -> cv5_overflows (ps_stream st) = false) ->
-  forall pf, snd (open2 pf max_off zd file) <> O2panic.
-Proof. exact OpenStage_proofs.open2_total_safe_partial_proof. Qed.
-Print Assumptions open2_total_safe_partial.
-
-(* ... and then the two profiles return the same thing, allocation log included *)
-Theorem open2_profiles_agree : forall max_off zd file,
-  (forall st, snd (open_pre max_off zd file) = O2ok st -> cv5_overflows (ps_stream st) = false) ->
-  open2 Dev max_off zd file = open2 Release max_off zd file.
-Proof. exact OpenStage_proofs.open2_profiles_agree_proof. Qed.
-Print Assumptions open2_profiles_agree.
-Example safe_partial_nonvacuous :
+  forall form pf form' pf', open2_f form pf max_off zd file = open2_f form' pf' max_off zd file.
+Proof. exact OpenStage_proofs.open2_repair_conservative_proof. Qed.
+Print Assumptions open2_repair_conservative.
+Example conservative_nonvacuous :
   let zd := wit_zd [9] [2; 115; 48; 0; 115; 49; 0] in
   let file := wit_file [9] 7 in
   (forall st, snd (open_pre max_u64 zd file) = O2ok st -> cv5_overflows (ps_stream st) = false) /\
@@ -113,8 +112,8 @@ Theorem open2_loop_is_count_loop : forall pf v count ptr, cv_decode_p pf v = Ok 
   deser_sample_names_p pf v = dec_names (N.to_nat count) 0 ptr.
 Proof. exact OpenStage_proofs.open2_loop_is_count_loop_proof. Qed.
 Print Assumptions open2_loop_is_count_loop.
-Example loop_nonvacuous : cv_decode_p Release [255; 255; 255; 255; 255; 97; 0] = Ok (270549119%N, [97; 0]) /\
-  snd (deser_sample_names_p Release [255; 255; 255; 255; 255; 97; 0]) = O2err e_no_nul.
+Example loop_nonvacuous : cv_decode_p Release [240; 0; 0; 0; 5; 97; 0] = Ok (270549125%N, [97; 0]) /\
+  snd (deser_sample_names_p Release [240; 0; 0; 0; 5; 97; 0]) = O2err e_no_nul.
 Proof. vm_compute. split; reflexivity. Qed.
 
 (* ---------------------------------------------------------------- never a garbage-sized buffer *)
@@ -278,7 +277,7 @@ Theorem open2_code_shape :
   R_PARAMS_OFF_K = 0 /\ R_PARAMS_OFF_MML = 4 /\ R_PARAMS_OFF_PACK = 8 /\ R_PARAMS_OFF_SEGSIZE = 12 /\
   R_PARAMS_SEGSIZE_FROM_LEN = 16 /\ R_PARAMS_DEFAULT_SEGSIZE = 60000%N /\
   R_SAMPLES_SEQUENTIAL = true /\ R_SAMPLES_SIZE_CHECK = true /\ R_SAMPLES_PREALLOC_FROM_COUNT = false /\
-  CV5_ADD_FORM = 0 /\ cv_thr_4 = 270549120%N /\
+  CV5_ADD_FORM = 2 /\ cv_thr_4 = 270549120%N /\
   R_STRING_UTF8_STRICT = true /\ R_STRING_TERMINATOR = 0 /\ R_READ_PART_CAN_RETURN_NONE = false /\
   R_NAME_PARAMS = [112; 97; 114; 97; 109; 115] /\
   R_NAME_COLL_0 = [99; 111; 108; 108; 101; 99; 116; 105; 111; 110; 45; 115; 97; 109; 112; 108; 101; 115] /\
